@@ -264,7 +264,13 @@ func (g *gen) constraint() *Con {
 	c.Feat = feat
 	g.feat(feat)
 	// a union may be written bare or inside interface{ }; single pointer terms need the latter
-	if len(terms) == 1 && terms[0].K == KPtr && terms[0].Name == "" || g.chance(40, "ifacewrap") {
+	literalTerm := false
+	for _, t := range terms {
+		if t.Name == "" {
+			literalTerm = true
+		}
+	}
+	if literalTerm || g.chance(40, "ifacewrap") {
 		c.Src = "interface { " + c.Src + " }"
 	}
 	if g.chance(15, "namedcon") {
